@@ -43,3 +43,16 @@ pub mod batchhook {
         out[0] = core::mem::size_of::<VerifyingKey>(); out[1] = core::mem::offset_of!(VerifyingKey, compressed); out[2] = core::mem::offset_of!(VerifyingKey, point);
     }
 }
+
+// ---- C08: key derivation as one run (layer G with uninterpreted SHA-512): SigningKey::from_bytes and ExpandedSecretKey::from
+pub mod keygen {
+    use crate::hazmat::ExpandedSecretKey;
+    use crate::SigningKey;
+    #[inline(never)] pub fn vp_ed_from_bytes(seed: &[u8; 32], out: &mut SigningKey) { core::mem::forget(core::mem::replace(out, SigningKey::from_bytes(seed))); }
+    #[inline(never)] pub fn vp_ed_expand(seed: &[u8; 32], out: &mut ExpandedSecretKey) { core::mem::forget(core::mem::replace(out, ExpandedSecretKey::from(seed))); }
+    #[inline(never)] pub fn vp_layout_keys(out: &mut [usize; 8]) {
+        out[0] = core::mem::size_of::<SigningKey>(); out[1] = core::mem::offset_of!(SigningKey, secret_key); out[2] = core::mem::offset_of!(SigningKey, verifying_key);
+        out[3] = core::mem::offset_of!(crate::VerifyingKey, compressed); out[4] = core::mem::offset_of!(crate::VerifyingKey, point);
+        out[5] = core::mem::size_of::<ExpandedSecretKey>(); out[6] = core::mem::offset_of!(ExpandedSecretKey, scalar); out[7] = core::mem::offset_of!(ExpandedSecretKey, hash_prefix);
+    }
+}
